@@ -42,3 +42,18 @@ pub fn propagates(x: i32) -> Result<i32, FxStop> {
         Err(other) => Err(other),
     }
 }
+
+/// forbidden: a buffered writer that is dropped without flush - the write error disappears in Drop
+pub fn buffered_never_flushed(contents: &[u8]) -> std::io::Result<()> {
+    use std::io::Write;
+    let mut w = std::io::BufWriter::new(std::io::sink());
+    w.write_all(contents)
+}
+
+/// allowed (negative control): flushed before the success value
+pub fn buffered_flushed(contents: &[u8]) -> std::io::Result<()> {
+    use std::io::Write;
+    let mut w = std::io::BufWriter::new(std::io::sink());
+    w.write_all(contents)?;
+    w.flush()
+}
